@@ -26,6 +26,10 @@ pub struct Shared {
     pub handled: Mutex<Vec<u32>>,
     pub on_stop: Mutex<Vec<bool>>,
     pub spin: u32,
+    /// ring experiment: whom this actor asks while handling `Start`
+    pub next: Mutex<Option<ActorWeak<RaceActor>>>,
+    /// ring experiment: the handlers of all participants line up here before they ask
+    pub meet: Mutex<Option<(Arc<AtomicUsize>, usize)>>,
 }
 
 pub struct RaceActor {
@@ -36,6 +40,8 @@ pub struct RaceActor {
 
 pub struct Item(pub u32);
 pub struct Hold;
+pub struct Start;
+pub struct Poke;
 
 pub fn reply_of(id: u32) -> u64 {
     id as u64 * 7 + 1
@@ -72,6 +78,35 @@ impl Message<Item> for RaceActor {
     }
 }
 
+impl Message<Start> for RaceActor {
+    type Reply = u64;
+    async fn handle(&mut self, _m: Start, _r: &ActorRef<Self>) -> u64 {
+        let next = self.sh.next.lock().unwrap().as_ref().and_then(|w| w.upgrade());
+        let meet = self.sh.meet.lock().unwrap().clone();
+        if let Some((m, parties)) = meet {
+            m.fetch_add(1, Ordering::AcqRel);
+            let t0 = Instant::now();
+            while m.load(Ordering::Acquire) < parties && t0.elapsed() < Duration::from_millis(20) {
+                std::hint::spin_loop();
+            }
+        }
+        match next {
+            None => 0,
+            Some(n) => match n.ask(Poke).await {
+                Ok(_) => 1,
+                Err(_) => 2,
+            },
+        }
+    }
+}
+
+impl Message<Poke> for RaceActor {
+    type Reply = u64;
+    async fn handle(&mut self, _m: Poke, _r: &ActorRef<Self>) -> u64 {
+        7
+    }
+}
+
 impl Message<Hold> for RaceActor {
     type Reply = ();
     async fn handle(&mut self, _m: Hold, _r: &ActorRef<Self>) {
@@ -94,7 +129,7 @@ impl Rng {
 }
 
 fn spawn_actor(rt: &tokio::runtime::Runtime, cap: usize, run_mode: u8, spin: u32) -> (ActorRef<RaceActor>, tokio::task::JoinHandle<ActorResult<RaceActor>>, Arc<Shared>, tokio::sync::watch::Sender<bool>) {
-    let sh = Arc::new(Shared { handled: Mutex::new(vec![]), on_stop: Mutex::new(vec![]), spin });
+    let sh = Arc::new(Shared { handled: Mutex::new(vec![]), on_stop: Mutex::new(vec![]), spin, next: Mutex::new(None), meet: Mutex::new(None) });
     let (tx, rx) = tokio::sync::watch::channel(false);
     let _g = rt.enter();
     let (r, jh) = rsactor::spawn_with_mailbox_capacity::<RaceActor>((sh.clone(), rx, run_mode), cap);
@@ -523,9 +558,112 @@ fn stop_race_round(rt: &tokio::runtime::Runtime, rng: &mut Rng, cfg: &mut String
 }
 
 // ---------------------------------------------------------------------------------------------
+// ring / line of asks started at the same instant (deadlock-detection builds only)
+// ---------------------------------------------------------------------------------------------
+/// k actors; on `Start` actor i asks actor i+1 (ring: the last asks the first; line: the last asks
+/// nobody). All k `Start` asks are issued at the same instant from k threads. Ring: whatever the
+/// interleaving, nobody may be left waiting (C14) - and a self-ask (k = 1) must panic. Line: no
+/// cycle can exist, so nobody may panic (C15). Afterwards the wait-for graph is empty (C15).
+#[cfg(feature = "deadlock-detection")]
+fn ring_round(rt: &tokio::runtime::Runtime, rng: &mut Rng, cfg: &mut String) -> Option<Bad> {
+    let ring = rng.below(3) != 0;
+    let k = if ring { 1 + rng.below(4) as usize } else { 2 + rng.below(3) as usize };
+    let cap = [1usize, 2, 8][rng.below(3) as usize];
+    *cfg = format!("{}:k{k}:cap{cap}", if ring { "ring" } else { "line" });
+    let _ = &cfg;
+    let mut actors = vec![];
+    for _ in 0..k {
+        actors.push(spawn_actor(rt, cap, 0, 0));
+    }
+    let meet = Arc::new(AtomicUsize::new(0));
+    let lined_up = rng.below(4) != 0;
+    for i in 0..k {
+        let nxt = if ring || i + 1 < k { Some(ActorRef::downgrade(&actors[(i + 1) % k].0)) } else { None };
+        *actors[i].2.next.lock().unwrap() = nxt;
+        if lined_up {
+            *actors[i].2.meet.lock().unwrap() = Some((meet.clone(), k));
+        }
+    }
+    let h = rt.handle().clone();
+    let go = Gate::new();
+    let mut hs = vec![];
+    for i in 0..k {
+        let (r2, go, h2) = (actors[i].0.clone(), go.clone(), h.clone());
+        hs.push(std::thread::spawn(move || {
+            go.wait();
+            h2.block_on(async { tokio::time::timeout(Duration::from_secs(10), r2.ask(Start)).await })
+        }));
+    }
+    go.release(k);
+    let mut hung = 0;
+    let mut outcomes = vec![];
+    for hd in hs {
+        match hd.join() {
+            Ok(Ok(r)) => outcomes.push(r.map_err(|e| format!("{e}"))),
+            Ok(Err(_)) => hung += 1,
+            Err(_) => return bad("C14", "client-panicked", "a thread asking from outside any actor panicked".to_string()),
+        }
+    }
+    let mut panics = vec![];
+    let mut refs = vec![];
+    let mut joins = vec![];
+    for (r, jh, sh, _tx) in actors {
+        *sh.next.lock().unwrap() = None;
+        let _ = r.kill();
+        refs.push(r);
+        joins.push(jh);
+    }
+    drop(refs);
+    let mut stuck = 0;
+    for jh in joins {
+        match join(rt, jh) {
+            None => stuck += 1,
+            Some(Err(e)) => panics.push(e),
+            Some(Ok(_)) => {}
+        }
+    }
+    if ring && (hung > 0 || stuck > 0) {
+        return bad("C14", "cycle-participant-left-waiting", format!("ring of {k} actors, each asking the next while handling a request, all started at the same instant: {hung} of the {k} outer asks had not returned after 10 s and {stuck} actor(s) did not end after kill() - an ask cycle went undetected"));
+    }
+    if ring && k == 1 && !outcomes.iter().any(|o| o.is_err()) {
+        return bad("C14", "self-ask-not-detected", format!("an actor asked itself from a handler and the outer ask returned {outcomes:?}"));
+    }
+    if !ring {
+        if hung > 0 || stuck > 0 {
+            return bad("C03", "hang", format!("line of {k} actors: {hung} outer asks / {stuck} actors hung"));
+        }
+        if !panics.is_empty() || outcomes.iter().any(|o| o != &Ok(1) && o != &Ok(0)) {
+            return bad("C15", "unjustified-deadlock-panic", format!("line of {k} actors (the last one asks nobody, so no cycle can exist), all started at the same instant: outer asks returned {outcomes:?}, actor panics {panics:?}"));
+        }
+    }
+    #[cfg(rsactor_verif)]
+    {
+        // every ask has finished and every actor has ended: nothing may be left in the graph
+        let t0 = Instant::now();
+        loop {
+            let e = rsactor::__verif_wait_for_edges();
+            if e.is_empty() {
+                break;
+            }
+            if t0.elapsed() > Duration::from_secs(2) {
+                return bad("C15", "graph-residue", format!("wait-for graph still holds {e:?} after every ask of the round had finished and every actor had ended"));
+            }
+            std::thread::sleep(Duration::from_millis(1));
+        }
+    }
+    None
+}
+
+#[cfg(not(feature = "deadlock-detection"))]
+fn ring_round(_rt: &tokio::runtime::Runtime, _rng: &mut Rng, cfg: &mut String) -> Option<Bad> {
+    *cfg = "ring:skipped-without-deadlock-detection".into();
+    None
+}
+
+// ---------------------------------------------------------------------------------------------
 // driver
 // ---------------------------------------------------------------------------------------------
-pub const KINDS: [&str; 4] = ["drop", "burst", "parked", "stop"];
+pub const KINDS: [&str; 5] = ["drop", "burst", "parked", "stop", "ring"];
 
 /// Which experiments the check of a property runs, and which clauses (properties) it reports: a
 /// round that breaks a clause of some *other* property is left to that property's own check.
@@ -536,6 +674,7 @@ pub fn kinds_for(prop: &str) -> &'static [&'static str] {
         "C07" => &["drop", "stop"],
         "C09" => &["parked"],
         "C10" => &["parked"],
+        "C14" | "C15" => &["ring"],
         "C17" => &["burst", "parked"],
         _ => &[],
     }
@@ -548,7 +687,11 @@ fn reports(host: &str, clause: &str) -> bool {
 type Sink<'a> = &'a dyn Fn(&str, &str, &str, &str, serde_json::Value) -> String;
 
 fn run_kind(prop: &str, kind: &'static str, rng_seed: u64, rounds: u32, replay_out: &str, part: &mut Part, write_replay: Sink) -> i32 {
-    let rt = tokio::runtime::Builder::new_multi_thread().worker_threads(4).enable_time().build().expect("runtime");
+    if kind == "ring" {
+        // deadlock panics inside actor tasks are the expected outcome here; keep stderr quiet
+        std::panic::set_hook(Box::new(|_| {}));
+    }
+    let rt = tokio::runtime::Builder::new_multi_thread().worker_threads(6).enable_time().build().expect("runtime");
     let mut rng = Rng::new(rng_seed);
     for _ in 0..rounds {
         let mut cfg = String::new();
@@ -556,6 +699,7 @@ fn run_kind(prop: &str, kind: &'static str, rng_seed: u64, rounds: u32, replay_o
             "drop" => drop_race_round(&rt, &mut rng, &mut cfg),
             "burst" => burst_round(&rt, &mut rng, &mut cfg),
             "parked" => parked_round(&rt, &mut rng, &mut cfg),
+            "ring" => ring_round(&rt, &mut rng, &mut cfg),
             _ => stop_race_round(&rt, &mut rng, &mut cfg),
         };
         part.evaluations += 1;
@@ -588,7 +732,7 @@ pub fn run(prop: &str, kinds: &[&'static str], seed: u64, rounds: u32, replay_ou
     crate::trace::set_current(None);
     for (ki, kind) in kinds.iter().enumerate() {
         let mult = match *kind {
-            "drop" => 10,
+            "drop" | "ring" => 10,
             "stop" => 2,
             "burst" => 3,
             _ => 1,
